@@ -46,6 +46,15 @@ static int hash_search(int sdbm)
         buf[n] = 0;
         for (i = 0; i < n; ++i) want = want * (sdbm ? 65599u : 131u) + buf[i];
         g1 = sdbm ? a_hash_sdbm(buf, v) : a_hash_bkdr(buf, v); g2 = sdbm ? a_hash_sdbm_(buf, n, v) : a_hash_bkdr_(buf, n, v);
+        if ((it & 3) == 2 && n > 2)
+        {
+            /* length-delimited form on data WITH zero bytes */
+            unsigned char z[80]; a_u32 wz = v, gz; size_t j;
+            memcpy(z, buf, n); z[n / 2] = 0; z[0] = 0;
+            for (j = 0; j < n; ++j) wz = wz * (sdbm ? 65599u : 131u) + z[j];
+            gz = sdbm ? a_hash_sdbm_(z, n, v) : a_hash_bkdr_(z, n, v);
+            if (gz != wz) { printf("%s_ len=%zu with zero bytes at 0 and %zu: 0x%x, definition 0x%x\n", sdbm ? "sdbm" : "bkdr", n, n / 2, gz, wz); return rp_fail("length-delimited hash differs from its defining recurrence on data containing zero bytes"); }
+        }
         if (g1 != want || g2 != want) { printf("%s len=%zu first byte 0x%02x: string form 0x%x, length form 0x%x, definition 0x%x\n", sdbm ? "sdbm" : "bkdr", n, n ? buf[0] : 0, g1, g2, want); return rp_fail("hash differs from its defining recurrence / forms disagree"); }
         s = n ? rnd() % (n + 1) : 0; part = sdbm ? a_hash_sdbm_(buf, s, v) : a_hash_bkdr_(buf, s, v);
         if ((sdbm ? a_hash_sdbm_(buf + s, n - s, part) : a_hash_bkdr_(buf + s, n - s, part)) != g2) return rp_fail("chunked hash differs from one-shot");
